@@ -326,7 +326,7 @@ pub fn run(ctx: &Ctx) {
         counter_strategy,
         check_counter,
     );
-    ctx.run_random(Part::new("localwaker", RULE_W, ctx.tier.scale(20_000, 20)).floors(&[("woke-registered", 0.5)]), waker_strategy, check_waker);
+    ctx.run_random(Part::new("localwaker", RULE_W, ctx.tier.scale(20_000, 20)).floors(&[("woke-registered", 0.4)]), waker_strategy, check_waker);
     if ctx.tier == vcore::Tier::Thorough {
         ctx.run_fuzz(
             vcore::fuzz::Campaign { target: "c17_counter", part: "counter", runs_per_proc: 400_000, procs: 4, max_len: 48, rule: RULE_C },
